@@ -6,7 +6,10 @@
 (*                                                                         *)
 (* cfg = [loads : module -> sequence of modules its body loads, in order,   *)
 (*        roots : sequence of package BUILD modules (one goroutine each),   *)
-(*        bad   : sequence of modules whose body fails after its loads]     *)
+(*        bad   : sequence of modules whose body fails after its loads,     *)
+(*        nofetch : sequence of (leaf, non-root, bad) modules that live in   *)
+(*                a project that cannot be fetched: module.env fails        *)
+(*                before the body is executed]                              *)
 (*                                                                         *)
 (* A thread (one per root) executes module bodies on a call stack: a        *)
 (* load() of a module nobody has registered yet executes that module on     *)
@@ -28,10 +31,15 @@
 (* d.getLoading(), which locks the same mutex again: the goroutine blocks   *)
 (* forever while holding it.  Walk = "fixed" models the repaired walk: no   *)
 (* mutex held, one momentary lock per hop, following the chain.             *)
+(*                                                                         *)
+(* EnvFail = "nodone" models module.load as it was found: when module.env   *)
+(* fails, load returns the error without publishing the module's result, so *)
+(* the module stays registered and never becomes loaded.  EnvFail = "done"  *)
+(* models the repaired load, which publishes the failure like any other.    *)
 (***************************************************************************)
 EXTENDS Integers, Sequences, FiniteSets, TLC, ModLoadMon
 
-CONSTANTS Cfgs, Walk
+CONSTANTS Cfgs, Walk, EnvFail
 
 VARIABLES cfg, registry, loading, loaded, result, held, ts, mon, hist
 
@@ -41,6 +49,7 @@ Mods == DOMAIN cfg.loads
 SetOf(s) == { s[i] : i \in DOMAIN s }
 Roots == SetOf(cfg.roots)
 Bad == SetOf(cfg.bad)
+NoFetch == SetOf(cfg.nofetch)
 Nil == "<nil>"
 
 \* thread record: stack of [mod, idx] frames (top = last), pc, d = module of the current
@@ -109,13 +118,19 @@ LmSetLoading(t) ==
 
 LmLoad(t) ==
     /\ ts[t].pc = "lm.load"
-    /\ ts' = [ts EXCEPT ![t] = Exec(ts[t], ts[t].d)]
-    /\ mon' = Feed(mon, << [ev |-> "ModuleLoading", m |-> ts[t].d] >>)
+    /\ IF ts[t].d \in NoFetch /\ EnvFail = "nodone" /\ Waiter(t) # Nil
+       THEN \* env fails: the error goes back to the loading module, nothing is published
+            /\ ts' = [ts EXCEPT ![t].pc = "lm.clear", ![t].res = "bad"]
+            /\ mon' = Feed(mon, << [ev |-> "ModuleLoading", m |-> ts[t].d],
+                                   [ev |-> "ModuleLoadFailed", m |-> ts[t].d, cyclic |-> FALSE] >>)
+       ELSE /\ ts' = [ts EXCEPT ![t] = Exec(ts[t], ts[t].d)]
+            /\ mon' = Feed(mon, << [ev |-> "ModuleLoading", m |-> ts[t].d] >>)
     /\ UNCHANGED <<cfg, registry, loading, loaded, result, held>>
 
 \* the rest of wait() once the walk found no cycle: sleep until d is loaded
 Sleep(T, d) ==
-    IF loaded[d] THEN [T EXCEPT !.pc = "lm.clear", !.res = result[d], !.woken = FALSE]
+    IF loaded[d] THEN IF T.stk = <<>> THEN [T EXCEPT !.pc = "exit", !.woken = FALSE]   \* a package goroutine: nothing to clear
+                      ELSE [T EXCEPT !.pc = "lm.clear", !.res = result[d], !.woken = FALSE]
     ELSE [T EXCEPT !.pc = "mod.sleep", !.woken = FALSE]
 
 ModWait(t) ==
